@@ -123,6 +123,9 @@ func (r *Run) Violation(key string, replay any, msg string) {
 	}
 	h := sha256.Sum256([]byte(key))
 	dir := filepath.Join(r.Dir, "replays", r.Prop)
+	if d := os.Getenv("VERIF_REPLAYS_DIR"); d != "" {
+		dir = filepath.Join(d, r.Prop) // mutation runs keep their replays out of /verif/replays
+	}
 	_ = os.MkdirAll(dir, 0o755)
 	path := filepath.Join(dir, hex.EncodeToString(h[:6])+".json")
 	b, _ := json.MarshalIndent(map[string]any{"property": r.Prop, "part": os.Getenv("VERIF_PKG"), "key": key, "message": msg, "replay": replay}, "", " ")
